@@ -149,10 +149,16 @@ CLAIMS['C19'] = dict(category='other', technique='bounded enumeration of the fun
          'bringing it under contract would assume the whole function away in shims.', 'relpath'),
     note='Bound: all pairs of paths of 1..4 components over 3 names, absolute and relative, both separators for the base (57600 pairs).',
     design_ref='DESIGN.md 5 C19')
-CLAIMS['C20'] = dict(category='other', technique='bounded enumeration of the function contract (stand-in for contract-based deductive verification)',
-    text=_BOUNDED_ONLY % ('ram_bundle.rs is behind a cargo feature that the baseline build does not enable and reads every field through the scroll crate (derive(Pread), repr(packed)); '
-         'the bounds checks the property is about live in that dependency.', 'ram_bundle'),
-    note='Bound: bundles with 0..3 table slots, non-empty startup code of 1..2 bytes, modules of length 1..3, both physical orders; every truncation and every single-field corruption from 4 values. Built with --features ram_bundle.',
+CLAIMS['C20'] = dict(
+    text='PARTIAL: unbounded proof, for every byte string, of the indexed-bundle functions against the byte layout (spec/rambundle.rs): is_ram_bundle_slice and '
+         'RamBundle::parse_indexed_from_slice / _from_vec / IndexedRamBundle::parse accept exactly a complete 12-byte header with the magic number and keep the bytes and the '
+         'header numbers; get_module answers an error for ids past the table and for a table cut off before the entry, nothing for an empty slot, an error for a zero length with '
+         'an offset, the module bytes without the trailing NUL when they lie inside the buffer and an error otherwise; startup_code is the bytes after the table or an error; '
+         'RamBundleModuleIter::next skips exactly the empty slots in id order and yields get_module\'s answer for the first other id; none of them overflows, indexes out of '
+         'bounds or panics, and the iterator loop terminates. The reads themselves (scroll::Pread) are behind assumed contracts written from scroll 0.10\'s source.',
+    note=_TB + 'Assumed: the three pread_with shims (header / table entry / byte range: Ok exactly when the bytes are available, little-endian values), Cow<[u8]> deref, '
+         'Option::is_some_and, a 64-bit usize, size_of of the two packed structs (12 and 8). The file-based (unbundle) variant, split_ram_bundle and the derive(Pread) expansion '
+         'are outside the contracts; the bounded stand-in ram_bundle (built with --features ram_bundle) exercises the real scroll reads through the public API.',
     design_ref='DESIGN.md 5 C20')
 
 NOT_APPLICABLE = {p: 'under construction in this session (contract-based check being built; see DESIGN.md decision table)' for p in
@@ -162,6 +168,7 @@ NOT_APPLICABLE['C16'] = ('concurrency (interleavings of threads sharing a Source
 
 # parts of each property that no discharged obligation covers (reported in every evidence file, never counted)
 NOT_COVERED = {
+    'C20': ['scroll::Pread internals and the derive(Pread) expansion (assumed contracts; exercised by the bounded stand-in ram_bundle)', 'UnbundleRamBundle (file-system based variant)', 'split_ram_bundle / SplitRamBundleModuleIter (composition with flatten and SourceMapBuilder)', 'that Iterator::next of RamBundleModuleIter is the inherent body verified here (R-trait-inherent: same text, emitted outside the trait impl)'],
     'C10': ['the sweep of adjust_mappings (skip / overlap / clip / advance, displacement arithmetic, final sort): bounded stand-in only', 'positions >= 2^31 (as i32)'],
     'C09': ['strip_prefixes, find_common_prefix ("~") (bounded stand-in rewrite only)', 'load_local_source_contents (filesystem; excluded by the property)', 'SourceMapHermes::rewrite function-map permutation (bounded stand-in only)'],
     'C05': ['dependencies (serde_json, url, bitvec, data-encoding, base64-simd, debugid)', 'sourceview.rs, js_identifiers.rs, detector.rs line scan, Display/Debug impls, ram_bundle.rs',
